@@ -863,6 +863,12 @@ def c19_run(case):
 
 
 # ----------------------------------------------------------------------------- C01 - C14 (run-time)
+def _wrap(spec, depth, S):
+    for k in range(depth):
+        spec = S('w%d' % k, [spec])
+    return spec
+
+
 def rt_cases(prop):
     def gen(tier, rng):
         from replay import runtime as RT
@@ -966,6 +972,19 @@ def rt_cases(prop):
               for i in range(0, 7) for j in range(0, 7) if abs(i - j) <= 4],
             *[S('top', [S('in', [J('a', yields=i), J('b', duration=5), J('s', duration=5)], [(1, 0)], window=2),
                         J('long', duration=9)], timeout=1) for i in range(0, 5)],
+            # the same with the cancellation arriving through 1 or 2 intermediate schedulers (each level delays it by
+            # a few loop iterations), so that both signs of the offset are covered
+            *[S('top', [S('w1', [S('in', [J('a', yields=i), J('b', duration=5), J('s', duration=5)], [(1, 0)], window=2)]),
+                        J('long', duration=9)], timeout=1) for i in range(0, 7)],
+            *[S('top', [S('w1', [S('w2', [S('in', [J('a', yields=i), J('b', duration=5), J('s', duration=5)], [(1, 0)],
+                                             window=2)])]), J('long', duration=9)], timeout=1) for i in range(0, 9)],
+            *[S('top', [S('w1', [S('in', [J('a', yields=i), J('b', duration=5), J('s', duration=5)], [(1, 0)], window=2)]),
+                        J('crit', critical=True, outcome='raise', yields=j)]) for i in range(0, 7) for j in (0, 2)],
+            # ... and a timeout expiring at the very instant of the nested completion, the cancellation coming down
+            # through d levels (d = 0..4), with 0..3 extra instantaneous jobs (they shift the order of the timers)
+            *[S('top', [_wrap(S('in', [J('a', yields=i), J('b', duration=5), J('s', duration=5)], [(1, 0)], window=2), d, S),
+                        J('long', duration=9)] + [J('p%d' % q, duration=0) for q in range(pre)], timeout=1)
+              for d in range(0, 5) for i in range(0, 3) for pre in range(0, 4)],
             # a run that fails, then the scheduler is emptied and run again: an empty run is a success with no cause
             S('top', [J('a', duration=5)], timeout=1, rerun=True, session=[[['clear', 'top']]]),
             S('top', [S('in', [J('c', critical=True, outcome='raise')]), J('z')], rerun=True, session=[[['clear', 'in']]]),
